@@ -30,6 +30,8 @@ import (
 	"github.com/nginx/nginx-gateway-fabric/internal/mode/static/state"
 	"github.com/nginx/nginx-gateway-fabric/internal/mode/static/state/dataplane"
 	"github.com/nginx/nginx-gateway-fabric/internal/mode/static/state/graph"
+	ngfStatus "github.com/nginx/nginx-gateway-fabric/internal/mode/static/status"
+	metav1 "k8s.io/apimachinery/pkg/apis/meta/v1"
 	p "github.com/nginx/nginx-gateway-fabric/verifharness/pipeline"
 	"github.com/nginx/nginx-gateway-fabric/verifharness/rng"
 )
@@ -158,6 +160,26 @@ func ngfFrontService(r *rng.R) *apiv1.Service {
 type HInfo struct {
 	Plus    bool     `json:"plus"`
 	Batches []HBatch `json:"batches"`
+}
+
+// freshGatewayStatuses: what a freshly started handler (latestReloadResult = nil) writes for the Gateways of graph g.
+func freshGatewayStatuses(g *graph.Graph, objs []client.Object) []JGatewayStatus {
+	if g == nil {
+		return nil
+	}
+	reqs := ngfStatus.PrepareGatewayRequests(g.Gateway, g.IgnoredGateways, metav1.Now(), nil, ngfStatus.NginxReloadResult{})
+	res, _, tg := p.ApplyStatuses(reqs, objs)
+	all := Statuses(objs, res).Gateways
+	out := []JGatewayStatus{}
+	for _, gs := range all {
+		for _, k := range tg {
+			if k.NN.Namespace == gs.Ns && k.NN.Name == gs.Name {
+				out = append(out, gs)
+				break
+			}
+		}
+	}
+	return out
 }
 
 // RunSequence drives one controller process through nb batches; emit receives one Line per batch.
@@ -347,7 +369,9 @@ func RunSequence(id string, s *Scenario, r *rng.R, nb int, emit func(Line)) {
 		// what the out-of-batch callbacks did (before Process): requests issued, and the result the handler remembered then
 		var preReqs []frameworkStatus.UpdateRequest
 		preCalls, preErr := 0, false
+		var preGraph *graph.Graph // the graph the callback read (GetLatestGraph before this batch's Process)
 		proc.onProcess = func() {
+			preGraph = proc.ChangeProcessor.GetLatestGraph()
 			preReqs = append([]frameworkStatus.UpdateRequest(nil), upd.reqs...)
 			preCalls = upd.calls
 			preErr = h.LatestReloadErr() != nil
@@ -395,6 +419,9 @@ func RunSequence(id string, s *Scenario, r *rng.R, nb int, emit func(Line)) {
 			mid.Conf = lastConf
 			mid.Objs = FlatObjects(before)
 			mid.St = Statuses(before, res)
+			if !mid.ReloadErr {
+				mid.Fresh = freshGatewayStatuses(preGraph, before)
+			}
 			tags["h-svc-"+svcEvent]++
 			if mid.ReloadErr {
 				tags["h-svc-after-failed-apply"]++
@@ -455,6 +482,9 @@ func RunSequence(id string, s *Scenario, r *rng.R, nb int, emit func(Line)) {
 		ln.Conf = lastConf
 		ln.Objs = FlatObjects(objsNow())
 		ln.St = Statuses(objsNow(), nil)
+		if !ln.ReloadErr {
+			ln.Fresh = freshGatewayStatuses(proc.lastGraph, objsNow())
+		}
 		emit(ln)
 	}
 }
